@@ -40,6 +40,11 @@ theorem C08_md5_read_loop (n : Nat) (hn : 0 < n) (m : Bytes) : md5sumLoop n m = 
   unfold md5sumLoop md5
   rw [C08_md5_chunking_list, chunksOf_flatten n hn m]
 
+/-- the buffered implementation (`MD5Update` + `MD5Pad` + `MD5Final`) equals the RFC 1321 style
+    definition: pad the whole message with 0x80, zeros and the 64-bit bit count, fold the compression
+    function over its 64-byte blocks -/
+theorem C08_md5_spec (m : Bytes) : md5 m = spec m := md5_eq_spec m
+
 theorem C08_md5_bufLen_pos : 0 < md5ReadChunk := by decide
 
 /-- the buffer length invariant that C recomputes from `count` (`have = (count >> 3) & 63`) -/
